@@ -8,6 +8,7 @@ CONSTANT MaxLoss = 9
 CONSTANT MaxSeq = 255
 CONSTANT FixedCancel = TRUE
 CONSTANT Limit <- TrLimit
+CONSTANT PowerLocked = TRUE
 INVARIANT NotConsumed
 CHECK_DEADLOCK FALSE
 CONSTRAINT Progress
